@@ -11,7 +11,7 @@ SPEC = dict(
          "(absent, addressee, bare/full variant, case variant, stranger, own bare/full JID, own domain) injected at "
          "QXmppOutgoingClient::handlePacketReceived, openSession(resumed?), closeSession(canResume?), destruction} on a real client: "
          "exhaustive to depth 5 (quick) / 6 (thorough, 9-symbol sub-alphabet; 12-symbol to 5) over a 12-symbol alphabet "
-         "(2 ids x 3 addressees) and to depth 3 / 4 over a 36- / 20-symbol alphabet, plus seeded random sequences of length 2..40 over "
+         "(2 ids x 3 addressees) and to depth 3 / 4 over a 40- / 21-symbol alphabet (all four (smResumed, smEnabled) session-open combinations), plus seeded random sequences of length 2..40 over "
          "the full alphabet incl. library-generated ids, unconfigured client, stream management off, connected loopback socket; "
          "every line compares the completions (request number, how, delivered type and sender) and the set of pending ids between "
          "the real client and the Lean model. (B) QXmppMamManager::retrieveMessages with a dummy QXmppE2eeExtension (instant / deferred "
@@ -19,7 +19,12 @@ SPEC = dict(
          "error or non-resumable close, decryption report 0/1} and to depth 5 / 6 after an initial start, x 4 configurations, plus random; compares finish events with the Lean "
          "machine. (C) 30 request APIs of the client and bundled managers x {empty result, error, unexpected payload, silence, reply "
          "from a stranger} + duplicate reply + the same call a second time + non-resumable session end: completions counted (oracle only). A sequence is "
-         "non-trivial when it yields >= 2 distinct observations.",
+         "non-trivial when it yields >= 2 distinct observations. (D) session boundaries through the REAL negotiation of a real client "
+         "(FakeSock transport, handleStart, <stream:features/>, <resume/> answered <resumed/> or <failed/>, bind, <enable/> answered "
+         "<enabled resume?/>, loss via _q_socketDisconnected, orderly disconnectFromHost) with requests outstanding: exhaustive to "
+         "depth 5 / 6 over {send, reply, loss, reconnect+resumed, reconnect+failed+new SM session, reconnect+session without SM, orderly "
+         "disconnect} plus random (also non-resumable SM session, stranger reply); model side = Neg layer (connect(sm,resumable,resumed), "
+         "loss, disconnect); oracle judges by what the scripted server answered, never by client flags.",
     trusted_base=[
         "Lean 4.33.0 kernel; axioms per theorem listed under coverage.theorems (subset of propext, Classical.choice, Quot.sound)",
         "hand-written model lean/Qx/Model/C07Iq.lean, tied to src/client/QXmppOutgoingClient.cpp (OutgoingIqManager, sendIq, "
@@ -48,7 +53,9 @@ SPEC = dict(
                "'to' asked or the own bare JID); any other stanza is a no-op; non-resumable session end / destruction empties the table "
                "and completes everything; resumable ends keep everything; any continuation containing a matching reply, send failure "
                "or non-resumable end completes a pending request. MAM machine: finished at most once always, and exactly once (state released) for every "
-               "history once the IQ has completed and all decryption jobs have reported, with or without e2ee, empty page included. chain_once: a task built by chain finishes exactly once when its source does "
+               "history once the IQ has completed and all decryption jobs have reported, with or without e2ee, empty page included. Negotiated boundaries (Neg): a session that is not a resumption leaves nothing pending whatever SM state it has, "
+               "a genuine resumption retains everything, orderly disconnect cancels; loss cancels iff the client believes it cannot resume "
+               "(partial: defect theorem C07_defect_stale_resumable_after_nosm_session, reproduced on the real negotiation). chain_once: a task built by chain finishes exactly once when its source does "
                "(context alive), at most once always.",
     level_note="Proved about the hand-written models; model-to-code tie is differential (exhaustive to a depth, sampled beyond). "
                "Continuation chaining and the other managers are checked by direct counting on the implementation only.",
